@@ -324,6 +324,7 @@ cplx GreensFunctionPart_of_tau(struct GreensFunctionPart *part, double tau)
 #define EVAL_POST(self) (g_evals == EXPECTED_EVALS(self) && C_SAME(__CPROVER_return_value, g_sum) && \
                          (self->Vanishing ? (SUM_IS_ZERO && g_last_eval == -1) : g_last_eval == (long)self->parts.n - 1))
 
+//@rename GreensFunction_call(long) => GreensFunction_call_n
 //@rename GreensFunction_call/1 => GreensFunction_call_z
 //@function Pomerol::GreensFunction::operator()(std::complex<double>) const as GreensFunction_call_z
 //@contract
